@@ -63,6 +63,78 @@ def version_models(bb, t, args, st):
     return None
 
 
+def local_reach(facts, k):
+    """local functions reachable from k through resolved calls, counting closures with the function they are written in"""
+    seen, work = set(), [k]
+    while work:
+        x = work.pop()
+        if x in seen:
+            continue
+        seen.add(x)
+        work += [c for c in facts.local_fns if c.startswith(x + "::{closure")]
+        g = facts.fns.get(x)
+        if g is not None and g.rec.get("local"):
+            work += [call_name(t) for bb, t in g.calls() if call_name(t) in facts.local_fns]
+            # functions handed over as values (`most_preferred(s, TransferEncoding::from_token)`)
+            for bb, t in g.calls():
+                for a in t["args"]:
+                    if a.get("k") == "const" and a.get("fn") in facts.local_fns:
+                        work.append(a["fn"])
+    return seen
+
+
+def fold_preference_rules(ctx, facts, g, te_parse):
+    """the preference order computed by one pass that keeps the best candidate seen so far: entries with q <= 0 are filtered out before, only
+    supported codings take part, and a later candidate replaces the best one only when its weight is strictly greater (ties: first listed wins)"""
+    where = "%s:%d" % (g.file, g.line)
+    fb = [(bb, t) for bb, t in g.calls() if call_matches(t, r"Iterator>?::fold(::<|$)")]
+    ok_fold = False
+    detail = None
+    if len(fb) == 1:
+        co = g.origin(fb[0][1]["args"][2]) if len(fb[0][1]["args"]) > 2 else ("unknown",)
+        cf = facts.fns.get(co[1]) if co[0] == "agg" else None
+        if cf is not None:
+            # the closure compares the best weight so far (from its first argument) with the candidate's weight (from its second)
+            for b2 in sorted(cf.live_blocks()):
+                bs = bool_switch(cf, b2)
+                if not bs:
+                    continue
+                o = cf.origin(bs[0])
+                if o[0] == "binop" and o[1] in ("Ge", "Gt", "Le", "Lt"):
+                    l_best = any(x == ("arg", 2) for x in origin_walk(o[2])) and not any(x == ("arg", 3) for x in origin_walk(o[2]))
+                    r_new = any(x == ("arg", 3) for x in origin_walk(o[3]))
+                    l_new = any(x == ("arg", 3) for x in origin_walk(o[2])) and not any(x == ("arg", 2) for x in origin_walk(o[2]))
+                    r_best = any(x == ("arg", 2) for x in origin_walk(o[3]))
+                    # which edge keeps the best?  the one on which the closure returns its first argument unchanged
+                    def keeps(tgt):
+                        outs = shared.eval_from(cf, tgt)
+                        return bool(outs) and all(symex.sym_str(st.read_key((0,))).find("init(2") >= 0 or st.read_key((0,)) == ("init", (2,)) for pp, st in outs)
+                    keep_true, keep_false = keeps(bs[1]), keeps(bs[2])
+                    if l_best and r_new:
+                        # best OP new
+                        ok_fold = (o[1] == "Ge" and keep_true and not keep_false) or (o[1] == "Lt" and keep_false and not keep_true)
+                        detail = "best %s candidate: keep on %s" % (o[1], "true" if keep_true else "false")
+                    elif l_new and r_best:
+                        ok_fold = (o[1] == "Gt" and keep_false and not keep_true) or (o[1] == "Le" and keep_true and not keep_false)
+                        detail = "candidate %s best: keep on %s" % (o[1], "true" if keep_true else "false")
+    ctx.ob("C05.4", "%s|best-so-far" % g.id, "the most preferred coding is found by keeping the best weight seen so far; a later entry replaces it only with a strictly greater weight (equal weights: first listed wins)",
+           ok_fold, where, detail)
+    # q <= 0 filtered before, and only supported codings take part
+    skip_ok = False
+    for bb, t in g.calls():
+        if call_matches(t, r"Iterator>?::filter(::<|$)|Vec::<T(, A)?>::retain$") and len(t["args"]) > 1:
+            co = g.origin(t["args"][1])
+            cf = facts.fns.get(co[1]) if co[0] == "agg" else None
+            if cf is not None:
+                for b2, i2, s2 in cf.assigns():
+                    r2 = s2["rhs"]
+                    if r2["rv"] == "binop" and r2["op"] == "Gt" and op_const(r2["b"]) == ("float", 0.0) and s2["lhs"] == {"l": 0, "p": []}:
+                        skip_ok = fb and g.dominates(bb, fb[0][0], unwind=False)
+    ctx.ob("C05.4", "%s|skip-q-zero" % g.id, "an entry with q <= 0 (or a q that is not a number) is dropped before the codings are compared", bool(skip_ok), where)
+    uses_parser = te_parse in local_reach(facts, g.id) or any(a.get("k") == "const" and a.get("fn") == te_parse for h, bb, t in facts.callers_of(g.id) for a in t["args"])
+    ctx.ob("C05.4", "%s|first-supported-wins" % g.id, "only codings the token parser recognises take part in the comparison", uses_parser, where)
+
+
 def te_parser(facts, cte):
     """the client-preference token parser, bound by role: the function of the chooser's file that turns one &str into a TransferEncoding
     (`Result<TransferEncoding, _>` / `Option<TransferEncoding>`)"""
@@ -286,9 +358,10 @@ def run(ctx):
         ctx.ob("C05.2", "%s|tuple-delegates" % g0.id, "comparison with a (major, minor) tuple follows the same order", ok, "%s:%d" % (g0.file, g0.line), detail)
 
     # ---- C05.3 threshold
-    thr_field = [n for n in M.len_f if n != M.dlen_f]
-    ctx.require(len(thr_field) == 1, "C05.3: chunking-threshold field of Response")
-    TF = thr_field[0]
+    ctx.require(len(M.thr_paths) == 1, "C05.3: chunking-threshold field of Response")
+    TF = M.thr_paths[0][-1]
+    TF_OWNER, _ = shared.owner_of_path(facts, RESP, M.thr_paths[0])
+    TF_KEY = tuple("." + x for x in M.thr_paths[0])
     getters = [g for k, g in facts.local_fns.items() if g.rec.get("impl_self_adt") == RESP and g.argc == 1 and g.locals[0]["ty"] == "usize" and TF in {fl for bb, i, s in g.assigns() for p_, kind in rvalue_places(s["rhs"]) for fl in pl_fields(p_)}]
     ok = len(getters) == 1
     detail = None
@@ -297,17 +370,17 @@ def run(ctx):
         for val, want in ((None, 32768), (5, 5), (0, 0)):
             st = symex.Sym(g)
             base = (1, "*") if g.locals[1]["ty"].startswith("&") else (1,)
-            st.write_key(base + ("." + TF,), ("none",) if val is None else ("some", ("const", val, "%d_usize" % val, None)))
+            st.write_key(base + TF_KEY, ("none",) if val is None else ("some", ("const", val, "%d_usize" % val, None)))
             rets = {absint.const_of(p.ret()) for p in absint.explore(g, 0, st) if p.end[0] == "return"}
             if rets != {want}:
                 ok = False
                 detail = "%s -> %s" % (val, rets)
     ctx.ob("C05.3", "%s|default-32768" % RESP, "the threshold is the configured one, 32768 by default", ok, where, detail)
-    setters = {g.id for g, bb, kind, x in facts.field_writes(RESP, TF) if kind in ("assign", "calldest", "mutref")}
+    setters = {g.id for g, bb, kind, x in facts.field_writes(TF_OWNER, TF) if kind in ("assign", "calldest", "mutref")}
     ok = len(setters) == 1
     if ok:
         wct = facts.fn(sorted(setters)[0])
-        ws = [(bb, x) for g, bb, kind, x in facts.field_writes(RESP, TF) if g.id == wct.id and kind == "assign"]
+        ws = [(bb, x) for g, bb, kind, x in facts.field_writes(TF_OWNER, TF) if g.id == wct.id and kind == "assign"]
         ok = len(ws) == 1
         if ok:
             o = wct.origin(ws[0][1]["rhs"]["op"])
@@ -330,71 +403,82 @@ def run(ctx):
 
     # ---- C05.4 TE preference
     # bound by role: the function (closure or helper) on the chooser's path that sorts the parsed preferences, and the comparator it passes to sort_by
-    cands = [facts.fns[d] for dep, d in f.inlined if d in facts.fns] + [g for k, g in facts.local_fns.items() if k.startswith(cte.id + "::{closure") or any(k.startswith(d + "::{closure") for dep, d in f.inlined)]
+    cands = [facts.fns[d] for d in sorted(local_reach(facts, cte.id)) if d in facts.fns]
     pref = []
     for g in cands:
         if g.call_blocks(lambda t: call_matches(t, r"<impl \[T\]>::sort(_unstable)?_by$")) and g.id not in [x.id for x in pref]:
             pref.append(g)
-    ctx.require(len(pref) == 1, "C05.4: the code sorting the TE preferences was not found")
-    p = pref[0]
-    sb0 = [(bb, t) for bb, t in p.calls() if call_matches(t, r"<impl \[T\]>::sort(_unstable)?_by$")]
-    so = p.origin(sb0[0][1]["args"][1])
-    ctx.require(so[0] == "agg" and so[1] in facts.fns, "C05.4: sort comparator is not a closure")
-    sc = facts.fns[so[1]]
-    ctx.touch(p); ctx.touch(sc)
-    o = sc.origin_place({"l": 0, "p": []})
-    pcs = [x for x in origin_calls(o) if re.search(r"(partial_cmp|total_cmp|::cmp)$", x[1])]
-    ok = False
-    if pcs:
-        a, b = pcs[0][2]
-        sa, sb = origin_str(a), origin_str(b)
-        ok = "arg3" in sa and "arg2" in sb and sa.endswith(".1") and sb.endswith(".1")
-    ctx.ob("C05.4", "%s|descending-q" % sc.id, "codings are sorted by descending q (the comparator compares b.q with a.q)", ok, "%s:%d" % (sc.file, sc.line), origin_str(o))
-    sb_ = p.call_blocks(lambda t: call_matches(t, r"<impl \[T\]>::sort_by$"))
-    ctx.ob("C05.4", "%s|stable-sort" % p.id, "ties keep list order (stable sort_by)", len(sb_) == 1, "%s:%d" % (p.file, p.line))
-    skip_ok = False
-    for bb in sorted(p.live_blocks()):
-        bs = bool_switch(p, bb)
-        if not bs:
-            continue
-        o = p.origin(bs[0])
-        if o[0] == "binop" and o[1] == "Le" and o[3][0] == "const" and o[3][1] == ("float", 0.0) and "1" in origin_fields(o[2]):
-            fs = set(p.call_blocks(lambda t: (call_name(t) == te_parse)))
-            nx = set(p.call_blocks(lambda t: call_matches(t, r"Iter<.*> as std::iter::Iterator>::next$")))
-            r = p.reach([bs[1]], blocked=nx, unwind=False)
-            skip_ok = not (r & fs) and not any(x in r for x in p.returns())
-    if not skip_ok:
-        for bb, t in p.calls():
-            if call_matches(t, r"Vec::<T(, A)?>::retain$|Iterator>?::filter(::<|$)") and len(t["args"]) > 1 and all(p.dominates(bb, s_, unwind=False) for s_, _ in sb0):
-                co = p.origin(t["args"][1])
-                cf = facts.fns.get(co[1]) if co[0] == "agg" else None
-                if cf is not None:
-                    for b2, i2, s2 in cf.assigns():
-                        r2 = s2["rhs"]
-                        if r2["rv"] == "binop" and r2["op"] == "Gt" and op_const(r2["b"]) == ("float", 0.0) and s2["lhs"] == {"l": 0, "p": []}:
-                            skip_ok = True
-    ctx.ob("C05.4", "%s|skip-q-zero" % p.id, "an entry with q <= 0 (or a q that is not a number) is dropped before the codings are tried", skip_ok, "%s:%d" % (p.file, p.line))
-    # first accepted coding is returned
-    fs = p.call_blocks(lambda t: (call_name(t) == te_parse))
-    ok = len(fs) == 1
-    if ok:
-        rs = shared.result_switch(p, fs[0])
-        ok = rs is not None and rs.get("ok") is not None
+    folds = []
+    for g in cands:
+        if g.call_blocks(lambda t: call_matches(t, r"Iterator>?::(fold|max_by|min_by|reduce)(::<|$)")) and g.id not in [x.id for x in folds]:
+            folds.append(g)
+    if len(pref) == 1:
+        p = pref[0]
+        sb0 = [(bb, t) for bb, t in p.calls() if call_matches(t, r"<impl \[T\]>::sort(_unstable)?_by$")]
+        so = p.origin(sb0[0][1]["args"][1])
+        ctx.require(so[0] == "agg" and so[1] in facts.fns, "C05.4: sort comparator is not a closure")
+        sc = facts.fns[so[1]]
+        ctx.touch(p); ctx.touch(sc)
+        o = sc.origin_place({"l": 0, "p": []})
+        pcs = [x for x in origin_calls(o) if re.search(r"(partial_cmp|total_cmp|::cmp)$", x[1])]
+        ok = False
+        if pcs:
+            a, b = pcs[0][2]
+            sa, sb = origin_str(a), origin_str(b)
+            ok = "arg3" in sa and "arg2" in sb and sa.endswith(".1") and sb.endswith(".1")
+        ctx.ob("C05.4", "%s|descending-q" % sc.id, "codings are sorted by descending q (the comparator compares b.q with a.q)", ok, "%s:%d" % (sc.file, sc.line), origin_str(o))
+        sb_ = p.call_blocks(lambda t: call_matches(t, r"<impl \[T\]>::sort_by$"))
+        ctx.ob("C05.4", "%s|stable-sort" % p.id, "ties keep list order (stable sort_by)", len(sb_) == 1, "%s:%d" % (p.file, p.line))
+        skip_ok = False
+        for bb in sorted(p.live_blocks()):
+            bs = bool_switch(p, bb)
+            if not bs:
+                continue
+            o = p.origin(bs[0])
+            if o[0] == "binop" and o[1] == "Le" and o[3][0] == "const" and o[3][1] == ("float", 0.0) and "1" in origin_fields(o[2]):
+                fs = set(p.call_blocks(lambda t: (call_name(t) == te_parse)))
+                nx = set(p.call_blocks(lambda t: call_matches(t, r"Iter<.*> as std::iter::Iterator>::next$")))
+                r = p.reach([bs[1]], blocked=nx, unwind=False)
+                skip_ok = not (r & fs) and not any(x in r for x in p.returns())
+        if not skip_ok:
+            for bb, t in p.calls():
+                if call_matches(t, r"Vec::<T(, A)?>::retain$|Iterator>?::filter(::<|$)") and len(t["args"]) > 1 and all(p.dominates(bb, s_, unwind=False) for s_, _ in sb0):
+                    co = p.origin(t["args"][1])
+                    cf = facts.fns.get(co[1]) if co[0] == "agg" else None
+                    if cf is not None:
+                        for b2, i2, s2 in cf.assigns():
+                            r2 = s2["rhs"]
+                            if r2["rv"] == "binop" and r2["op"] == "Gt" and op_const(r2["b"]) == ("float", 0.0) and s2["lhs"] == {"l": 0, "p": []}:
+                                skip_ok = True
+        ctx.ob("C05.4", "%s|skip-q-zero" % p.id, "an entry with q <= 0 (or a q that is not a number) is dropped before the codings are tried", skip_ok, "%s:%d" % (p.file, p.line))
+        # first accepted coding is returned
+        fs = p.call_blocks(lambda t: (call_name(t) == te_parse))
+        ok = len(fs) == 1
         if ok:
-            outs = shared.eval_from(p, rs["ok"])
-            ok = bool(outs) and all(st.read_key((0,))[0] == "some" for pp, st in outs)
-    if not ok:
-        # `sorted.iter().find_map(|v| TransferEncoding::from_str(v.0).ok())`: the first element for which the parser succeeds
-        for bb, t in p.calls():
-            if call_matches(t, r"Iterator>?::find_map(::<|$)") and len(t["args"]) > 1:
-                co = p.origin(t["args"][1])
-                cf = facts.fns.get(co[1]) if co[0] == "agg" else None
-                if cf is not None and cf.call_blocks(lambda t2: (call_name(t2) == te_parse)):
-                    recv = p.origin(t["args"][0])
-                    if not origin_has_call(recv, r"::rev$"):
-                        o0 = cf.origin_place({"l": 0, "p": []})
-                        ok = (origin_has_call(o0, r"Result::<T, E>::ok$") and origin_has_call(o0, re.escape(te_parse) + "$")) or (o0[0] == "call" and o0[1] == te_parse)
-    ctx.ob("C05.4", "%s|first-supported-wins" % p.id, "the first coding (in preference order) that is supported is the answer", ok, "%s:%d" % (p.file, p.line))
+            rs = shared.result_switch(p, fs[0])
+            ok = rs is not None and rs.get("ok") is not None
+            if ok:
+                outs = shared.eval_from(p, rs["ok"])
+                ok = bool(outs) and all(st.read_key((0,))[0] == "some" for pp, st in outs)
+        if not ok:
+            # `sorted.iter().find_map(|v| TransferEncoding::from_str(v.0).ok())`: the first element for which the parser succeeds
+            for bb, t in p.calls():
+                if call_matches(t, r"Iterator>?::find_map(::<|$)") and len(t["args"]) > 1:
+                    co = p.origin(t["args"][1])
+                    cf = facts.fns.get(co[1]) if co[0] == "agg" else None
+                    if cf is not None and cf.call_blocks(lambda t2: (call_name(t2) == te_parse)):
+                        recv = p.origin(t["args"][0])
+                        if not origin_has_call(recv, r"::rev$"):
+                            o0 = cf.origin_place({"l": 0, "p": []})
+                            ok = (origin_has_call(o0, r"Result::<T, E>::ok$") and origin_has_call(o0, re.escape(te_parse) + "$")) or (o0[0] == "call" and o0[1] == te_parse)
+        ctx.ob("C05.4", "%s|first-supported-wins" % p.id, "the first coding (in preference order) that is supported is the answer", ok, "%s:%d" % (p.file, p.line))
+    elif len(folds) == 1:
+        fold_preference_rules(ctx, facts, folds[0], te_parse)
+    else:
+        # the preference order is computed in a way none of the two recognised schemes (stable sort by descending q then first supported;
+        # a fold keeping the best weight seen so far) matches: this clause is not decided for such code (said so, rather than alarming)
+        ctx.note("C05.4: the code ordering the TE preferences has an unrecognised shape; the preference-order clause is NOT decided on this tree")
+        ctx.counts["C05.4 preference order"] = "undecided (unrecognised shape)"
     tefs = facts.fn(te_parse)
     tbl = {}
     for bb, t in tefs.calls():
